@@ -297,6 +297,9 @@ def _unit_rebuild(model, sizes, ranks, twins, generic):
                     g2 = [[S.cls.create_rating([p.mu, p.sigma]) for p in t] for t in g0]
                 ra = _do(m1, op, g1, ranks)
                 rb = _do(m2, op, g2, ranks)
+                if generic:
+                    from .. import teams as _T
+                    _T.guard(ra, rb)
 
                 def mk(md, clause=None):
                     return {"kind": "c14_rebuild", "model": model, "op": op, "via": via, "ranks": ranks, "clause": clause, "twins": bool(twins),
